@@ -35,6 +35,16 @@ def specs_for(ctx):
                               "extent": 1.0 if tissue["kind"] == "equilibrium" else 10.0, "reflect": rng.random() < 0.3},
                       "build": {"limit": "inf", "fit": rng.choice(["dlite", "taubinSVD"])},
                       "solve": {"method": method, "allow_negatives": rng.random() < 0.5}})
+    # many small SQUARE systems with distorted geometry: exact solutions with negative entries at varying positions
+    # (inversion path with allow_negatives on / off; the fallback must take over whenever any tension is negative)
+    for i in range(ctx.pick(260, 4000)):
+        specs.append({"tissue": {"kind": "catalogue", "base": "hexflower", "sagitta": rng.choice([None, None, 0.1]),
+                                 "tseed": rng.randrange(10 ** 6), "jitter": rng.choice([0.3, 0.5, 0.7])},
+                      "k": rng.choice([1, 2]), "seed": rng.randrange(10 ** 9), "want": ["C05"],
+                      "sim": {"theta": rng.uniform(0, 2 * math.pi), "scale": 10 ** rng.uniform(-1, 1), "offset_sizes": 0.5, "extent": 10.0,
+                              "reflect": rng.random() < 0.3},
+                      "build": {"limit": "inf", "fit": "taubinSVD"},
+                      "solve": {"method": "default", "allow_negatives": rng.random() < 0.3}})
     # velocity right-hand sides (dynamic series): inconsistent or consistent systems with b != 0
     for i in range(ctx.pick(16, 600)):
         nframes = rng.choice([2, 3, 4])
